@@ -10,7 +10,7 @@ from .project import AnalysisError, Project
 from .callgraph import BindingAnalysis, CallGraph
 from .report import Reporter
 
-CLAIMED = ["C01", "C02", "C03", "C04", "C05", "C06", "C08", "C09", "C10", "C11",
+CLAIMED = ["C01", "C02", "C03", "C04", "C05", "C06", "C07", "C08", "C09", "C10", "C11",
            "C12", "C13", "C14", "C15", "C16", "C17", "C18", "C19", "C20"]
 
 
